@@ -407,3 +407,17 @@ def c07_10(ctx):
                     ' & '.join(('' if q else 'not ') + t for t, q, _ in p.conds), ', '.join(missing)), witness='cmp(np.float64(2.0), 2) must be 0')
     if not ctx.findings and seen != set(conv):
         ctx.fail(f, f.node, '_as_primitive no longer converts %s' % sorted(set(conv) - seen))
+
+
+@obligation('C07.11', 'TABLES (guards by truth table)', 'identity shortcut of _sort:cmp',
+            'reflexivity for EVERY value, orderable or not: cmp(x, x) must be 0 without comparing x with itself (None < None raises; float("nan") < itself is False both ways): the identity test has to come first',
+            axioms=('A1',))
+def c07_11(ctx):
+    fn = ctx.repo.fn('_sort:cmp')
+    x, y = fn.params[:2]
+    first = [s for s in fn.body if not (isinstance(s, ast.Expr) and isinstance(s.value, ast.Constant))]
+    ctx.count(1, fn.where())
+    ok = first and isinstance(first[0], ast.If) and N(first[0].test) in (NS('%s is %s' % (x, y)), NS('%s is %s' % (y, x))) and first[0].body and isinstance(first[0].body[0], ast.Return) and const(first[0].body[0].value) == 0
+    if not ok:
+        ctx.fail(fn, first[0] if first else fn.node, 'cmp does not start with `if x is y: return 0`: identical operands that cannot be ordered natively (None, NaN, mixed containers holding them) are compared with themselves',
+                 witness='cmp(None, None); sort([None, 2, None])')
